@@ -197,6 +197,30 @@ def sec_C08():
     return r
 
 
+def sec_C10():
+    import omega.symbolic.fol as fol
+    import omega.symbolic.cover_enum as cenum
+    r = list()
+    for decl, f, care in [(dict(x=(0, 7)), r'x \in 2..5', None),
+                          (dict(x=(0, 3), y=(0, 3)), r'(x \in 1..2) \/ (y \in 1..2)', None),
+                          (dict(x=(0, 3), y=(0, 3)), r'~ ((x \in 1..2) /\ (y \in 1..2))', None),
+                          (dict(x=(0, 5), y=(-2, 1)), r'(x = 1) \/ (x = 4) \/ (y = 1)', r'(x \in 0..5) /\ (y \in -2..1)'),
+                          (dict(x=(0, 3), y=(0, 3), z=(0, 1)), r'(x = y) \/ (z = 1 /\ x < 2)', r'x + y < 5')]:
+        c = fol.Context()
+        c.declare(**decl)
+        u = c.add_expr(f)
+        cu = c.add_expr(care) if care else c.true
+        try:
+            covers = cenum.minimize(u, cu, c)
+            dec = sorted(sorted(repr(sorted(d.items())) for d in c.pick_iter(cv)) for cv in covers)
+            r.append([f, care, len(covers), dec])
+            dn = cenum.to_expr(c, u, care=cu) if care else cenum.to_expr(c, u)
+            r.append([f, care, sorted(dn)])
+        except Exception as e:
+            r.append([f, care, 'ERR', type(e).__name__])
+    return r
+
+
 def sec_C13():
     import omega.symbolic.temporal as trl
     import omega.symbolic.codegen as cg
